@@ -294,7 +294,7 @@ PROPS = {
         "assumptions": [],
     },
     "C15": {
-        "required_theorems": ["c15_replace_consistent", "c15_preserve_sends_same", "c15_marker_top_only", "c15_blank_key_restored", "c15_edge_points_kept", "c15_import_stored", "c15_children_order", "c15_reexport", "c15_export_is_own_tree", "c15_export_import_export", "c15_import_timeless_file",
+        "required_theorems": ["c15_replace_consistent", "c15_preserve_sends_same", "c15_marker_top_only", "c15_blank_key_restored", "c15_edge_points_kept", "c15_import_stored", "c15_children_order", "c15_reexport", "c15_export_is_own_tree", "c15_export_import_export", "c15_import_timeless_file", "c15_exported_records_meet_the_premises",
                               "c15_exports_live_only", "gen_export_pinned", "gen_export_constants_pinned"],
         "n": {"quick": 500, "thorough": 4000},
         "thorough_seeds": 3,
